@@ -255,6 +255,31 @@ func (c *WSConn) Recv(timeout time.Duration) Event {
 	return ev
 }
 
+// wsFix adds the namespace declarations that a stand-alone WebSocket message needs.
+func wsFix(s string) string {
+	t := strings.TrimLeft(s, " \n\t")
+	for _, n := range []string{"iq", "message", "presence"} {
+		if strings.HasPrefix(t, "<"+n+" ") || strings.HasPrefix(t, "<"+n+">") || strings.HasPrefix(t, "<"+n+"/") {
+			if !strings.Contains(strings.SplitN(t, ">", 2)[0], "xmlns=") {
+				return strings.Replace(t, "<"+n, "<"+n+" xmlns='jabber:client'", 1)
+			}
+		}
+	}
+	for _, n := range []string{"stream:error", "stream:features"} {
+		if strings.HasPrefix(t, "<"+n) && !strings.Contains(strings.SplitN(t, ">", 2)[0], "xmlns:stream") {
+			return strings.Replace(t, "<"+n, "<"+n+" xmlns:stream='"+NSStream+"'", 1)
+		}
+	}
+	return s
+}
+
+// wsDev adapts a WSConn to the deviation player (every send is one message with its own namespace declarations).
+type wsDev struct{ c *WSConn }
+
+func (w wsDev) Send(s string) error { return w.c.Send(wsFix(s)) }
+func (w wsDev) Close()              { w.c.DropTCP(500 * time.Millisecond) }
+func (w wsDev) HalfClose()          { w.c.DropTCP(500 * time.Millisecond) }
+
 // CloseNow closes the WebSocket abruptly (no close handshake wait).
 func (c *WSConn) CloseNow() {
 	c.add(Event{Dir: "note", Kind: "close"})
@@ -274,60 +299,125 @@ func (s *Script) wsFeatures(phase int) string {
 	return strings.Replace(f, "<stream:features>", "<stream:features xmlns:stream='"+NSStream+"'>", 1)
 }
 
-// WSNegotiate plays a well-behaved server over WebSocket framing until the
-// client sends its first non-negotiation element.
+// WSNegotiate plays the server side over WebSocket framing (no STARTTLS step) until the client sends its first
+// non-negotiation element; deviations of the script are played like on TCP (steps open1 auth open3 resume bind
+// session enable).
 func (c *WSConn) WSNegotiate(s *Script, timeout time.Duration) *Outcome {
 	out := &Outcome{}
 	authed := false
+	faulted := false
+	bound := false
 	deadline := time.Now().Add(timeout)
+	io := wsDev{c}
+	reply := func(step string, req *Event, ok func()) bool {
+		out.Steps = append(out.Steps, step)
+		if d, has := s.Dev[step]; has && !faulted {
+			faulted = true
+			out.FaultAt = step
+			c.add(Event{Dir: "note", Kind: "deviation at " + step + ": " + d.Kind})
+			if strings.HasPrefix(step, "open") && d.Kind == "stream-error" {
+				c.Send(s.wsOpen())
+			}
+			return playDevOn(io, step, d, req)
+		}
+		ok()
+		if !faulted {
+			out.Completed = append(out.Completed, step)
+		}
+		return false
+	}
 	for time.Now().Before(deadline) {
-		ev := c.Recv(time.Until(deadline))
+		wait := time.Until(deadline)
+		if bound && !faulted {
+			wait = IdleAfterBind
+		}
+		ev := c.Recv(wait)
 		switch ev.Kind {
-		case "eof", "timeout", "error":
+		case "timeout":
+			if bound && !faulted {
+				out.Established = true
+			}
+			return out
+		case "eof", "error":
 			return out
 		case "close":
 			c.Send(`<close xmlns="` + NSFraming + `"/>`)
 			return out
 		case "open":
-			phase := 2
+			phase, step := 2, "open1"
 			if authed {
-				phase = 3
+				phase, step = 3, "open3"
 			}
-			out.Steps = append(out.Steps, fmt.Sprintf("open%d", phase))
-			c.Send(s.wsOpen())
-			c.Send(s.wsFeatures(phase))
+			if reply(step, &ev, func() { c.Send(s.wsOpen()); c.Send(s.wsFeatures(phase)) }) {
+				return out
+			}
 		case "elem":
 			e := ev
 			switch {
 			case e.Name.Space == NSSASL && e.Name.Local == "auth":
 				cp := e
 				out.AuthReq = &cp
-				out.Steps = append(out.Steps, "auth")
-				c.Send("<success xmlns='" + NSSASL + "'/>")
-				authed = true
+				if reply("auth", &e, func() { c.Send("<success xmlns='" + NSSASL + "'/>"); authed = true }) {
+					return out
+				}
+			case e.Name.Space == NSSM && e.Name.Local == "resume":
+				cp := e
+				out.ResumeReq = &cp
+				ended := reply("resume", &e, func() {
+					switch {
+					case s.ResumeReply == "" || s.ResumeReply == "resumed-same":
+						c.Send(fmt.Sprintf("<resumed xmlns='%s' previd='%s' h='0'/>", NSSM, xmlEsc(e.Attr["previd"])))
+						out.Resumed = true
+					case s.ResumeReply == "resumed-other":
+						c.Send(fmt.Sprintf("<resumed xmlns='%s' previd='other-%s' h='0'/>", NSSM, xmlEsc(e.Attr["previd"])))
+					default:
+						c.Send("<failed xmlns='" + NSSM + "'/>")
+					}
+				})
+				if ended {
+					return out
+				}
+				if out.Resumed && !faulted {
+					out.Established = true
+					return out
+				}
 			case e.Name.Local == "iq" && strings.Contains(e.Raw, NSBind):
-				out.Steps = append(out.Steps, "bind")
 				jid := s.BindJid
 				if jid == "" {
 					jid = "user@" + s.domain() + "/bound"
 				}
-				c.Send(fmt.Sprintf("<iq xmlns='jabber:client' type='result' id='%s'><bind xmlns='%s'><jid>%s</jid></bind></iq>", xmlEsc(e.Attr["id"]), NSBind, xmlEsc(jid)))
+				if reply("bind", &e, func() {
+					c.Send(fmt.Sprintf("<iq xmlns='jabber:client' type='result' id='%s'><bind xmlns='%s'><jid>%s</jid></bind></iq>", xmlEsc(e.Attr["id"]), NSBind, xmlEsc(jid)))
+				}) {
+					return out
+				}
+				bound = !faulted
 			case e.Name.Local == "iq" && strings.Contains(e.Raw, NSSession):
-				out.Steps = append(out.Steps, "session")
-				c.Send(fmt.Sprintf("<iq xmlns='jabber:client' type='result' id='%s'/>", xmlEsc(e.Attr["id"])))
+				if reply("session", &e, func() {
+					c.Send(fmt.Sprintf("<iq xmlns='jabber:client' type='result' id='%s'/>", xmlEsc(e.Attr["id"])))
+				}) {
+					return out
+				}
 			case e.Name.Space == NSSM && e.Name.Local == "enable":
 				cp := e
 				out.EnableReq = &cp
-				out.Steps = append(out.Steps, "enable")
-				id := s.SMId
-				if id == "" {
-					id = "sm-id-1"
+				if reply("enable", &e, func() {
+					id := s.SMId
+					if id == "" {
+						id = "sm-id-1"
+					}
+					c.Send(fmt.Sprintf("<enabled xmlns='%s' id='%s' resume='true'/>", NSSM, xmlEsc(id)))
+				}) {
+					return out
 				}
-				c.Send(fmt.Sprintf("<enabled xmlns='%s' id='%s' resume='true'/>", NSSM, xmlEsc(id)))
+				if !faulted {
+					out.Established = true
+					return out
+				}
 			default:
 				cp := e
 				out.First = &cp
-				out.Established = true
+				out.Established = !faulted
 				return out
 			}
 		}
